@@ -80,3 +80,10 @@ func vFileContent(b *bufferedFile) uint64 { panic("intrinsic") }
 func vFSCorruptFile(path string) bool { panic("intrinsic") }
 func vTimerFor(site string, mode int) { panic("intrinsic") }
 func vLastTimerDuration() time.Duration { panic("intrinsic") }
+
+// vVolatile marks an atomic int32 cell as changeable by other goroutines at any moment: every
+// atomic load of it returns a fresh 0/1 (sound over-approximation of the interleavings on that cell).
+func vVolatile(p *int32) { panic("intrinsic") }
+
+// vIOCopyN(k): the byte count the k-th stubbed io.Copy of this path moved (-1: none yet).
+func vIOCopyN(k int) int64 { panic("intrinsic") }
